@@ -345,6 +345,48 @@ static void tabs_build(tabs_t *T, unsigned w, uint64_t poly)
         }
         T->use[o] = bad ? T->ref[o] : T->lib[o];
     }
+    /* A table is a function of the polynomial alone, whatever the buffer held before (a caller re-purposes one buffer for another
+       polynomial or the other bit order).  Re-initialise over contents chosen to satisfy any cheap "already built?" probe:
+         1. the correct table of this polynomial and order with ONE entry wrong,
+         2. the correct table of this polynomial in the OTHER order,
+         3. the other order's table of this polynomial Q, handed to the init of a polynomial P derived from it so that the entry a
+            probe would most likely look at agrees: l_init(P) with reflect(P) = m_Q[0x80] (entry 0x80 of a reflected table is the
+            reflected polynomial), and m_init(P') with P' = l_Q[1] (entry 1 of an msb-first table is the polynomial).
+       (Seeded change C17-H: a_crc64l_init returns early when table[0x80] == reflected poly && table[0] == 0.) */
+    for (int o = 0; o < 2; ++o)
+    {
+        void *t = malloc(sz);
+        uint64_t const mask = wmask(w);
+        if (!t) { fprintf(stderr, "h_crc: out of memory\n"); exit(2); }
+        for (int variant = 0; variant < 3; ++variant)
+        {
+            uint64_t p2 = poly;
+            unsigned bad = 0, first = 0, k = 2 + (unsigned)((poly >> 3) % 125); /* 2..126: neither 0, 1 nor 0x80 */
+            memcpy(t, variant == 1 ? T->ref[1 - o] : T->ref[o], sz);
+            if (variant == 0) { tab_set(w, t, k, tab_get(w, t, k) ^ 1); }
+            if (variant == 2)
+            {
+                memcpy(t, T->ref[1 - o], sz);
+                p2 = (o == 1 ? ref_rev(tab_get(w, T->ref[0], 0x80), w) : tab_get(w, T->ref[1], 1)) & mask;
+            }
+            lib_init(w, o, t, p2);
+            for (unsigned c = 0; c < 256; ++c)
+            {
+                if (tab_get(w, t, c) != ref_entry(w, o, p2, c)) { if (!bad) { first = c; } ++bad; }
+            }
+            ++vf.evals;
+            VF_COUNT("table-reinitialised-over-adversarial-contents");
+            if (bad)
+            {
+                key_init(key, sizeof(key), w, o, "table-depends-on-previous-contents");
+                vf_viol(key, "a_crc%u%c_init(poly=0x%" PRIx64 ") over a buffer holding %s: %u of 256 entries wrong, first table[0x%02x]=0x%" PRIx64 " expected 0x%" PRIx64,
+                        w, o ? 'l' : 'm', p2,
+                        variant == 0 ? "the correct table with one entry changed" : variant == 1 ? "the other bit order's table of the same polynomial" : "the other bit order's table of the polynomial this one was derived from",
+                        bad, first, tab_get(w, t, first), ref_entry(w, o, p2, first));
+            }
+        }
+        free(t);
+    }
     /* stated relation between the two orders, on the library's own tables */
     {
         unsigned bad = 0, first = 0;
